@@ -9,8 +9,11 @@
   another signal.
 
   Histories: any list of kernel events (spawn / exit / reap / tick / clock step) and psutil calls
-  (Process(pid), is_running, signals, setters, ppid, boot_time, create_time, ==, hash, process_iter) —
-  the only hypothesis is that the published boot time is never 0 (`b0 ≠ 0`, `HistOK`).
+  (Process(pid), is_running, signals, setters, ppid, boot_time, create_time, ==, hash, process_iter,
+  oneshot() entry/exit, str) — the only hypothesis is that the published boot time is never 0 (`b0 ≠ 0`,
+  `HistOK`).  The object list of a state holds the objects built by `Process(pid)` AND those built and
+  yielded by `process_iter()` (Props/C02.lean: `C02_iter_ghost_meaning`, `C02_iter_handles_valid`), so
+  "object i" below ranges over both kinds.
 -/
 import PsutilModel.Proofs.C01Args
 import PsutilModel.Model.C01Gen
@@ -201,6 +204,19 @@ example :
     (run cfg (St.init 1000) [.k (.spawn 7), .c (.newObj 7), .k (.setBtime 5), .c .bootTime,
         .c (.signal 0 .suspend), .c (.setter 0 .affinity [3, 1, 3])]).log
       = [⟨.set .affinity, 0, 7, [1, 3], some 0⟩, ⟨.kill, 0, 7, [19], some 0⟩] := by decide
+
+/-- handles from `process_iter()`: the first sweep yields handle 0 on PID 7; the PID is recycled; the second
+    sweep yields the *cached* handle 0 again (nobody asked `is_running()`: psutil cannot know), a kill
+    through it is refused with NoSuchProcess(7) and reaches nobody; the sweep after that evicts the entry,
+    the next one hands out handle 1 on the new owner, through which SIGTERM is delivered to incarnation 1 -/
+example :
+    (step cfg (run cfg (St.init 1000) [.k (.spawn 7), .c .processIter, .k (.reap 7), .k (.spawn 7)])
+        (.c .processIter)).2 = .procs [(7, 0)]
+    ∧ (step cfg (run cfg (St.init 1000) [.k (.spawn 7), .c .processIter, .k (.reap 7), .k (.spawn 7), .c .processIter])
+        (.c (.signal 0 .kill))).2 = .exc (.noSuchProcess 7)
+    ∧ (run cfg (St.init 1000) [.k (.spawn 7), .c .processIter, .k (.reap 7), .k (.spawn 7), .c .processIter,
+        .c (.signal 0 .kill), .c .processIter, .c .processIter, .c (.oneshot 1 true), .c (.signal 1 .terminate)]).log
+      = [⟨.kill, 1, 7, [15], some 1⟩] := by decide
 
 /-! ## Why the two fix flags matter: the full statements are false without them -/
 
